@@ -23,7 +23,13 @@ for fun in nograd_functions:
 defjvp(func(ArrayBox.__getitem__), "same")
 defjvp(untake, "same")
 
-defjvp_argnum(anp.array_from_args, lambda argnum, g, ans, args, kwargs: untake(g, argnum - 2, vspace(ans)))
+def array_from_args_jvp(argnum, g, ans, args, kwargs):
+    # ndmin may have prepended axes of length one to the stacked result
+    extra = anp.ndim(ans) - anp.ndim(args[argnum]) - 1
+    return untake(g, (0,) * extra + (argnum - 2,), vspace(ans))
+
+
+defjvp_argnum(anp.array_from_args, array_from_args_jvp)
 defjvp(
     anp._array_from_scalar_or_array,
     None,
